@@ -20,6 +20,7 @@ import (
 	"math/rand"
 	"os"
 	"os/exec"
+	"sync"
 	"time"
 
 	. "zharness/hz"
@@ -31,6 +32,9 @@ func main() {
 		"frames": runFrames, "packets": runPackets, "session": runSession,
 		"base": runBaseParent, "base-child": runBaseChild,
 		"peers": runPeersParent, "peers-child": runPeersChild,
+		"syncpeer": runSyncParent, "syncpeer-child": runSyncChild,
+		"stall": runStallParent, "stall-child": runStallChild,
+		"sessions": runSessionsParent,
 		"auth": runAuthParent, "auth-child": runAuthChild,
 	})
 }
@@ -107,6 +111,21 @@ func runHandlerParent(rng *rand.Rand, n int, out *Out, args []string) {
 		os.Remove(tmp.Name())
 		out.Oracle(werr == nil && !timedOut, "node-process-survives-session", Tup(fmt.Sprint(werr), timedOut, "child-seed", I64(seed), "last-session", last, time.Since(start).String()))
 	}
+}
+
+// sessions = the suites syncpeer (n sessions) and stall (4 rounds, 12 from n = 100 on) side by side: both spend most of
+// their time waiting for the node's own timers (5 s handshake / hash request, 9 s block request, 4 s synchronisation cycle)
+func runSessionsParent(rng *rand.Rand, n int, out *Out, args []string) {
+	r1, r2 := rand.New(rand.NewSource(rng.Int63())), rand.New(rand.NewSource(rng.Int63()))
+	rounds := 4
+	if n >= 100 {
+		rounds = 12
+	}
+	var wg sync.WaitGroup
+	wg.Add(2)
+	go func() { defer wg.Done(); runSyncParent(r1, n, out, nil) }()
+	go func() { defer wg.Done(); runStallParent(r2, rounds, out, nil) }()
+	wg.Wait()
 }
 
 func bytesReader(b []byte) *bytes.Reader { return bytes.NewReader(b) }
